@@ -1,7 +1,7 @@
 \* C02 diagdest, two files: ListOn starts at ON in every file (a LISTING OFF / an unrestored SAVE of the first file does
-\* not reach the second), one listing file per source; first file <= 3, second <= 2 of 7 line classes x listing
+\* not reach the second), one listing file per source; first file <= 3, second <= 1 of 7 line classes x listing
 \* destination x -Werror
-CONSTANTS MaxLines = 3 MaxFiles = 2 MaxLater = 2 Wrap = 0 Leaky = {} DestRule = "coded"
+CONSTANTS MaxLines = 3 MaxFiles = 2 MaxLater = 1 Wrap = 0 Leaky = {} DestRule = "coded"
 CONSTANTS Kinds <- KindsDest2f OptSpace <- OptsDest2f
 SPECIFICATION Spec
 INVARIANT Claims
